@@ -926,6 +926,31 @@ func (w *mirrorWorld) badTicket(real []byte, kind int) []byte {
 	return r.Bytes(40 + r.Intn(200))
 }
 
+// famTwoLogs: two mirrored logs uploaded side by side, each in more than one request, the resumed requests starting
+// at a tile boundary above 0 and completing further full tiles: both logs read and write the SAME tile coordinates
+// (tile/0/000, tile/1/000.p/…) within one process' lifetime. What is served for one log must not depend on the other.
+func (w *mirrorWorld) famTwoLogs() {
+	l0, l1 := w.logs[0], w.logs[1]
+	p0 := w.pick(513, min(990, w.maxN(l0)))
+	p1 := w.pick(513, min(990, w.maxN(l1)))
+	w.grow(l0, p0)
+	w.grow(l1, p1)
+	k0, k1 := 1+w.r.Intn(2), 1+w.r.Intn(2)
+	r0 := w.run(&mirrorSpec{Log: l0, Start: 0, End: p0, MaxPk: k0})
+	r1 := w.run(&mirrorSpec{Log: l1, Start: 0, End: p1, MaxPk: k1})
+	if w.r.Bool() {
+		r0, r1 = r1, r0
+		l0, l1 = l1, l0
+	}
+	if r0 != nil && r0.info != nil {
+		w.run(&mirrorSpec{Log: l0, Start: r0.infoNx, End: r0.info.pending, Ticket: r0.info.bytes})
+	}
+	if r1 != nil && r1.info != nil {
+		w.run(&mirrorSpec{Log: l1, Start: r1.infoNx, End: r1.info.pending, Ticket: r1.info.bytes})
+	}
+	w.closing(0)
+}
+
 func (w *mirrorWorld) famTickets() {
 	l0, l1 := w.logs[0], w.logs[1]
 	top := w.maxN(l0)
